@@ -17,7 +17,7 @@ theorem source_rules :
     Facts.C39.msgLastBatchFull = 0 ∧ Facts.C39.msgLastBatchSlice = 1 ∧ Facts.C39.msgLastBatchChannel = 1 ∧
     Facts.C39.dlgLastBatchFull = 0 ∧ Facts.C39.dlgLastBatchSlice = 2 ∧
     Facts.C39.sortDescending = true ∧ Facts.C39.bufNextStopsAtEnd = true ∧
-    Facts.C39.dlgBufNextStopsAtEnd = true := by decide
+    Facts.C39.dlgBufNextStopsAtEnd = true ∧ Facts.C39.dlgOffsetPeerFromEntities = true := by decide
 
 /-- Messages: for every server history (ids strictly descending, positive), every page size ≥ 1 and
 every choice of answer constructor per request, calling `Next` until it returns `false` (any number of
@@ -61,9 +61,11 @@ theorem iterate_dialogs_exact (ds : List Dlg) (hdesc : ds.Pairwise (fun a b => b
     (hnz : ∀ d ∈ ds, d ≠ Dlg.zero) (limit : Nat) (hlimit : 1 ≤ limit) (ks : List Kind)
     (cap : Nat) (hcap : 1 ≤ cap) (fuel : Nat) (hfuel : ds.length < fuel) :
     (drun ds fuel ks cap (DIter.init limit)).yields = ds ∧
-    (drun ds fuel ks cap (DIter.init limit)).done = true := by
+    (drun ds fuel ks cap (DIter.init limit)).done = true ∧
+    (drun ds fuel ks cap (DIter.init limit)).err = false := by
   have hpend : dpending ds (DIter.init limit) = ds := by simp [dpending, DIter.init, belowD]
-  have := drunS_exact ds hdesc hnz ks cap (by omega) fuel 0 (DIter.init limit) (by simp only [DIter.init]; omega)
+  have := drunS_exact ds hdesc hnz ks cap (by omega) fuel 0 (DIter.init limit) (by simp [DIter.init]) rfl
+    (by simp only [DIter.init]; omega)
     (by rw [hpend]; exact hfuel)
   rw [hpend] at this
   exact this
@@ -97,6 +99,31 @@ theorem iterate_offset_exact (items : List Nat) (limit : Nat) (hlimit : 1 ≤ li
   simp only [List.mem_cons, Prod.mk.injEq, List.mem_nil_iff, or_false] at hm
   rcases hm with ⟨h1, h2⟩ | ⟨h1, h2⟩ | ⟨h1, h2⟩ <;> subst h1 <;> subst h2 <;>
     exact key _ _ cap ⟨rfl, Or.inl ⟨rfl, hcap⟩⟩
+
+/-- Dialogs whose user/chat/channel object is missing from the answers (any set `noEntity` of such
+peers): the offset peer is built from the page's entities, and when it cannot be built for the last
+dialog of a non-final page the iteration stops with an error.  In every case what is yielded is a prefix
+of the server's list — no dialog twice, none out of order — the iteration ends, and unless it ends with
+an error it yielded everything. -/
+theorem dialogs_exact_or_error (ds : List Dlg) (hdesc : ds.Pairwise (fun a b => b.lt a = true))
+    (hnz : ∀ d ∈ ds, d ≠ Dlg.zero) (limit : Nat) (hlimit : 1 ≤ limit) (ks : List Kind)
+    (cap : Nat) (hcap : 1 ≤ cap) (noEntity : List Nat) (fuel : Nat) (hfuel : ds.length < fuel) :
+    let o := drun ds fuel ks cap { DIter.init limit with noEntity := noEntity }
+    ∃ rest, o.yields ++ rest = ds ∧ o.done = true ∧ (o.err = false → rest = []) := by
+  have hpend : dpending ds { DIter.init limit with noEntity := noEntity } = ds := by
+    simp [dpending, DIter.init, belowD]
+  have := drunS_prefix ds hdesc hnz ks cap (by omega) fuel 0 { DIter.init limit with noEntity := noEntity } rfl
+    (by simp only [DIter.init]; omega) (by rw [hpend]; exact hfuel)
+  rw [hpend] at this
+  exact this
+
+/-- Non-vacuity: the second dialog (peer 1) has no entity and is the last of the first page (page size 2):
+the first page is not delivered, the iteration stops with an error, nothing is yielded twice. -/
+example : drun [⟨9, 5, 2⟩, ⟨9, 5, 1⟩, ⟨3, 8, 7⟩] 6 [] 2 { DIter.init 2 with noEntity := [1] } =
+    { yields := [], reqs := [(Dlg.zero, 2)], done := true, err := true } := by decide
+/-- … in the middle of a page the missing entity does not matter. -/
+example : (drun [⟨9, 5, 2⟩, ⟨9, 5, 1⟩, ⟨3, 8, 7⟩] 6 [] 3 { DIter.init 3 with noEntity := [1] }).yields =
+    [⟨9, 5, 2⟩, ⟨9, 5, 1⟩, ⟨3, 8, 7⟩] := by decide
 
 /-- Non-vacuity (dialogs): three dialogs, two of them with the same date, page size 2. -/
 example : (drun [⟨9, 5, 2⟩, ⟨9, 5, 1⟩, ⟨3, 8, 7⟩] 4 [.slice, .full] 1 (DIter.init 2)).yields =
